@@ -89,8 +89,8 @@ func propTable() []propSpec {
 		durP([]string{"proxy", "cache_policy", "default_max_age"}, func(c *config.Config) *config.ConfigProp[duration.Duration] { return &c.Proxy.CachePolicy.DefaultMaxAge }),
 		boolP([]string{"proxy", "cache_policy", "force_default_max_age"}, func(c *config.Config) *config.ConfigProp[bool] { return &c.Proxy.CachePolicy.ForceDefaultMaxAge }, false),
 		strP([]string{"webserver", "listen"}, func(c *config.Config) *config.ConfigProp[string] { return &c.Webserver.Listen }, true, []string{"localhost:8080", ":1"}),
-		boolP([]string{"webserver", "dashboard_disabled"}, func(c *config.Config) *config.ConfigProp[bool] { return &c.Webserver.DashboardDisabled }, true),
-		boolP([]string{"webserver", "api_disabled"}, func(c *config.Config) *config.ConfigProp[bool] { return &c.Webserver.ApiDisabled }, true),
+		boolP([]string{"webserver", "dashboard_disabled"}, func(c *config.Config) *config.ConfigProp[bool] { return &c.Webserver.DashboardDisabled }, false),
+		boolP([]string{"webserver", "api_disabled"}, func(c *config.Config) *config.ConfigProp[bool] { return &c.Webserver.ApiDisabled }, false),
 		sizeP([]string{"cache", "max_cache_size"}, func(c *config.Config) *config.ConfigProp[bytesize.ByteSize] { return &c.Cache.MaxCacheSize }, false),
 		{Path: []string{"cache", "type"}, Kind: "ctype", vals: []string{"file", "memory"}, read: func(c *config.Config) string { return string(c.Cache.Type.Read()) }},
 		durP([]string{"cache", "cleanup_interval"}, func(c *config.Config) *config.ConfigProp[duration.Duration] { return &c.Cache.CleanupInterval }),
@@ -238,6 +238,10 @@ type CfgOp struct {
 	Set   map[string]string `json:"set,omitempty"`
 	Var   int               `json:"var,omitempty"`
 	Bad   string            `json:"bad,omitempty"` // badupdate: the setting that gets a value of the wrong JSON type
+	// badupdate: instead of an ill-typed value, Bad gets the well-typed but unworkable BadVal
+	BadInvalid bool   `json:"bad_invalid,omitempty"`
+	BadVal     string `json:"bad_val,omitempty"`
+	Current    bool   `json:"current,omitempty"` // badupdate: the first workable setting is given the value it already has
 }
 
 type CfgPlan struct {
@@ -272,7 +276,28 @@ func genCfgPlan(r *rand.Rand) *CfgPlan {
 					break
 				}
 			}
+			if r.IntN(2) == 0 {
+				// refused later, when the whole configuration is verified: a well-typed value the
+				// proxy cannot run under
+				inv := [][2]string{{"cache.max_cache_size", "0B"}, {"cache.cleanup_interval", "0s"}, {"cache.memory.memory_budget_percent", "101"}, {"cache.lock_shards", "0"}, {"cache.type", "disk"}, {"proxy.listen", ""}, {"cache.file.dir", ""}}
+				pick := inv[r.IntN(len(inv))]
+				if _, dup := op.Set[pick[0]]; !dup {
+					op.Bad, op.BadVal = pick[0], pick[1]
+					op.BadInvalid = true
+				}
+			}
+			// some of the workable values are the ones already in force
+			op.Current = r.IntN(2) == 0
 			p.Ops = append(p.Ops, op)
+		case x == 7 && r.IntN(2) == 0:
+			// the file is edited behind the proxy's back and lacks a setting or a whole section
+			// (a file written by an older version), then the proxy is restarted
+			ps := tbl[r.IntN(len(tbl))]
+			k := pathKey(ps.Path)
+			if r.IntN(3) == 0 && len(ps.Path) > 1 {
+				k = pathKey(ps.Path[:len(ps.Path)-1])
+			}
+			p.Ops = append(p.Ops, CfgOp{Kind: "dropfield", Bad: k})
 		case x < 7:
 			var ov []propSpec
 			for _, ps := range tbl {
@@ -381,6 +406,26 @@ func runCfgPlan(t *testing.T, planAny any, ctl Ctl) *Result {
 			}
 			hist = append(hist, "update "+strings.Join(desc, ","))
 			st, err := config.UpdatePartialFromConfig(cfg, doc)
+			// the one combination of workable values the process cannot start under: the dashboard
+			// needs the API (main refuses to start with the API disabled and the dashboard enabled)
+			after := func(k string) string {
+				if v, ok := op.Set[k]; ok {
+					return v
+				}
+				return base[k]
+			}
+			if after("webserver.api_disabled") == "true" && after("webserver.dashboard_disabled") == "false" {
+				if err == nil && st != config.UpdateStatusFailed {
+					res.violate("C18.a", "unworkable-update-accepted: api disabled, dashboard enabled", "update %v was accepted [history: %s]", desc, strings.Join(hist, "; "))
+					for _, k := range keys {
+						base[k] = op.Set[k]
+					}
+				} else {
+					check("refused update")
+					checkFile()
+				}
+				continue
+			}
 			if err != nil || st == config.UpdateStatusFailed {
 				res.violate("C17.b", "valid-update-rejected: "+strings.Join(keys, ","), "update %v was rejected: %v", desc, err)
 				continue
@@ -398,9 +443,13 @@ func runCfgPlan(t *testing.T, planAny any, ctl Ctl) *Result {
 				keys = append(keys, k)
 			}
 			sort.Strings(keys)
-			for _, k := range keys {
+			for i, k := range keys {
 				ps := byKey[k]
-				dv := docValue(ps.Kind, op.Set[k], op.Var)
+				val := op.Set[k]
+				if i == 0 && op.Current {
+					val = base[k] // the value in force (stored): naming it again must change nothing either
+				}
+				dv := docValue(ps.Kind, val, op.Var)
 				setPath(doc, ps.Path, dv)
 				desc = append(desc, fmt.Sprintf("%s=%v", k, dv))
 			}
@@ -409,8 +458,18 @@ func runCfgPlan(t *testing.T, planAny any, ctl Ctl) *Result {
 			if bad.Kind == "int" || bad.Kind == "bool" {
 				bv = "x"
 			}
+			what := "ill-typed"
+			if op.BadInvalid {
+				what = "unworkable"
+				switch bad.Kind {
+				case "int":
+					bv = float64(pInt(op.BadVal))
+				default:
+					bv = op.BadVal
+				}
+			}
 			setPath(doc, bad.Path, bv)
-			desc = append(desc, fmt.Sprintf("%s=%v(ill-typed)", op.Bad, bv))
+			desc = append(desc, fmt.Sprintf("%s=%v(%s)", op.Bad, bv, what))
 			hist = append(hist, "refused update "+strings.Join(desc, ","))
 			st, err := config.UpdatePartialFromConfig(cfg, doc)
 			if err == nil && st != config.UpdateStatusFailed {
@@ -423,6 +482,59 @@ func runCfgPlan(t *testing.T, planAny any, ctl Ctl) *Result {
 			}
 			res.Probes["refused_update"]++
 			check("refused update")
+			checkFile()
+		case "dropfield":
+			b, rerr := os.ReadFile(path)
+			var fdoc map[string]any
+			if rerr != nil || json.Unmarshal(b, &fdoc) != nil {
+				continue
+			}
+			parts := strings.Split(op.Bad, ".")
+			m := fdoc
+			for _, seg := range parts[:len(parts)-1] {
+				nm, ok := m[seg].(map[string]any)
+				if !ok {
+					m = nil
+					break
+				}
+				m = nm
+			}
+			if m == nil {
+				continue
+			}
+			delete(m, parts[len(parts)-1])
+			nb, _ := json.MarshalIndent(fdoc, "", "  ")
+			os.WriteFile(path, nb, 0o644)
+			hist = append(hist, "file loses "+op.Bad+", restart")
+			ncfg, lerr := config.LoadOrDefault(path)
+			if lerr != nil {
+				res.violate("C17.a", "reload-failed", "LoadOrDefault: %v [history: %s]", lerr, strings.Join(hist, "; "))
+				continue
+			}
+			cfg = ncfg
+			override = map[string]string{}
+			res.Probes["incomplete_file_loaded"]++
+			// whatever was made of the incomplete file (refused and reset, or completed with defaults):
+			// the configuration the proxy now runs under has a value for every setting ...
+			for _, ps := range tbl {
+				func() {
+					defer func() {
+						if r := recover(); r != nil {
+							res.violate("C18.a", "accepted-file-leaves-setting-without-value: "+pathKey(ps.Path), "after loading a file without %s, reading %s panics: %v [history: %s]", op.Bad, pathKey(ps.Path), r, strings.Join(hist, "; "))
+							base[pathKey(ps.Path)] = "?"
+						}
+					}()
+					base[pathKey(ps.Path)] = ps.read(cfg)
+				}()
+			}
+			// ... and takes a valid update
+			hist = append(hist, "update logging.max_backups=4")
+			if st, uerr := config.UpdatePartialFromConfig(cfg, map[string]any{"logging": map[string]any{"max_backups": float64(4)}}); uerr != nil || st == config.UpdateStatusFailed {
+				res.violate("C18.b", "valid-update-rejected: after loading an incomplete file", "the configuration loaded from a file without %s refuses {\"logging\":{\"max_backups\":4}}: %v [history: %s]", op.Bad, uerr, strings.Join(hist, "; "))
+				continue
+			}
+			base["logging.max_backups"] = "4"
+			check("update")
 			checkFile()
 		case "override":
 			for k, v := range op.Set {
@@ -833,11 +945,13 @@ type CompPlan struct {
 	Destroy   string       `json:"destroy,omitempty"`  // "", "cache-first", "logger-first": components shut down before the last change
 	PersistAt int          `json:"persist_at,omitempty"` // >0: RLIMIT_FSIZE for the last change's persist step
 	Retry     bool         `json:"retry,omitempty"`      // the change hit by the persist fault is submitted once more, without the fault
+	Hasty     bool         `json:"hasty,omitempty"`      // the change before the faulted one is not given time to be delivered: its notifications are still in flight when the next update is committed and rolled back
 	Rapid     bool         `json:"rapid,omitempty"`      // changes follow one another without waiting for the notifications of the previous one
 	Pol       zzsim.Policy `json:"pol"`
 }
 
-var compValidFixed = []string{`{"cache":{"lock_shards":1}}`, `{"cache":{"lock_shards":7}}`, `{"cache":{"type":"file"}}`, `{"cache":{"type":"memory"}}`, `{"cache":{"memory":{"memory_budget_percent":0}}}`,
+var compValidFixed = []string{`{"webserver":{"api_disabled":true,"dashboard_disabled":true}}`, `{"webserver":{"dashboard_disabled":true}}`,
+	`{"cache":{"lock_shards":1}}`, `{"cache":{"lock_shards":7}}`, `{"cache":{"type":"file"}}`, `{"cache":{"type":"memory"}}`, `{"cache":{"memory":{"memory_budget_percent":0}}}`,
 	`{"cache":{"file":{"dir":"other-cache"}}}`, `{"proxy":{"listen":":7777"}}`, `{"cache":{"max_cache_size":"1B"}}`, `{"cache":{"cleanup_interval":"50ms"}}`,
 	// several logging settings in one update: each has its own handler, and they all rebuild the log writers
 	`{"logging":{"file":"var/alt.log","max_backups":2}}`, `{"logging":{"file":"var/alt2.log","compress":true,"max_backups":1}}`, `{"logging":{"max_size":"2M","compress":true}}`,
@@ -854,6 +968,7 @@ var compInvalid = []string{
 	`{"cache":{"type":"disk"}}`, `{"cache":{"file":{"dir":""}}}`, `{"proxy":{"listen":""}}`, `{"logging":{"level":"LOUD"}}`, `{"logging":{"level":5.5}}`,
 	`{"cache":{"max_cache_size":"4096B","cleanup_interval":"0s"}}`, `{"cache":{"cleanup_interval":"250ms","max_cache_size":"0B"}}`, `{"logging":{"level":"DEBUG"},"cache":{"type":"disk"}}`,
 	`{"cache":{"memory":{"memory_budget_percent":40}},"proxy":{"listen":""}}`, `{"cache":{"max_cache_size":"8192B"},"webserver":{"listen":""}}`,
+	`{"webserver":{"api_disabled":true,"dashboard_disabled":false}}`, // (api_disabled alone depends on what is in force: cfg-roundtrip models that)
 	`{"cache":{"lock_shards":0}}`, `{"cache":{"lock_shards":-3}}`, `{"cache":{"lock_shards":"many"}}`, `{"cache":{"lock_shards":1099511627776}}`, `{"cache":{"lock_shards":4503599627370496}}`, `{"proxy":{"listen":"","ca_cert":"x"}}`, `{"cache":{"file":{"dir":""}},"logging":{"level":"WARN"}}`,
 	`{"cache":{"max_cache_size":"3G M"}}`, `{"cache":{"max_cache_size":"K"}}`, `{"cache":{"max_cache_size":"99999999999999999999B"}}`,
 	// a workable value for one setting next to an ill-typed one for another: refused while the document
@@ -912,6 +1027,7 @@ func genCompPlan(r *rand.Rand, faults bool) *CompPlan {
 	if faults {
 		// the short-write offset is enumerated by run index, so a batch covers every byte of the file
 		p.PersistAt = 1 + int(currentSeed&0xffffffff)/2%1400
+		p.Hasty = r.IntN(3) == 0 && p.Destroy == ""
 		if r.IntN(2) == 0 && len(p.Changes) > 0 && p.Destroy == "" {
 			// the operator tries the same update again once the disk is writable
 			p.Retry = true
@@ -1075,7 +1191,7 @@ func runCompPlan(t *testing.T, planAny any, ctl Ctl) *Result {
 				if err := json.Unmarshal([]byte(ch.Doc), &doc); err != nil {
 					panic("bad plan document: " + ch.Doc)
 				}
-				if p.Rapid {
+				if p.Rapid || (p.Hasty && p.PersistAt > 0 && i == faultIdx-1 && ch.Valid) {
 					// no waiting, no per-change snapshot: the notifications of earlier changes are still in flight
 					if st, uerr := config.UpdatePartialFromConfig(cfg, doc); uerr != nil || st == config.UpdateStatusFailed {
 						res.violate("C18.b", "valid-update-rejected: "+updateClass(ch.Doc), "update %s was rejected: %v [history: %s]", ch.Doc, uerr, history)
@@ -1129,14 +1245,47 @@ func runCompPlan(t *testing.T, planAny any, ctl Ctl) *Result {
 						}
 						diffs = append(diffs, d)
 					}
-					if len(calls) != ncalls {
-						diffs = append(diffs, fmt.Sprintf("subscribers notified: %v", calls[ncalls:]))
+					// Listeners may be told to look again (the settings named by a refused update are
+					// announced once more after the rollback), but only ever the values that are in force.
+					inForce := map[string]bool{
+						"max=" + after.reads["cache.max_cache_size"]: true, "interval=" + after.reads["cache.cleanup_interval"]: true,
+						"mem=" + after.reads["cache.memory.memory_budget_percent"]: true, "level=" + after.reads["logging.level"]: true,
+						"type=" + after.reads["cache.type"]: true, "listen=" + after.reads["proxy.listen"]: true,
 					}
-					if !cacheDestroyed && (after.maxSize != before.maxSize || after.interval != before.interval || after.memCap != before.memCap) {
-						diffs = append(diffs, fmt.Sprintf("cache follows new values (limit %d->%d, interval %v->%v)", before.maxSize, after.maxSize, before.interval, after.interval))
+					for _, cl := range calls[ncalls:] {
+						if !inForce[cl] && !(p.Hasty && p.PersistAt > 0 && i == faultIdx) {
+							diffs = append(diffs, fmt.Sprintf("a listener was notified of %s, which is not in force", cl))
+						}
 					}
-					if !loggerDestroyed && after.level != before.level {
-						diffs = append(diffs, fmt.Sprintf("log level %v->%v", before.level, after.level))
+					hastyFault := p.Hasty && p.PersistAt > 0 && i == faultIdx
+					if hastyFault {
+						// the previous (accepted) change was still being delivered when this one came: the
+						// components must end up with the accepted values, not with the refused ones
+						res.Probes["refused_update_while_notifications_in_flight"]++
+						if !cacheDestroyed && (after.maxSize != lastMax || after.interval != lastInt) {
+							diffs = append(diffs, fmt.Sprintf("cache follows limit %d / interval %v, the accepted values are %d / %v", after.maxSize, after.interval, lastMax, lastInt))
+						}
+						if !loggerDestroyed && after.level != lastLvl {
+							diffs = append(diffs, fmt.Sprintf("logger filters at %v, the accepted level is %v", after.level, lastLvl))
+						}
+						// (settings, file and subscriber calls of the previous change legitimately differ from 'before')
+						diffs = diffs[:0:0]
+						if !cacheDestroyed && (after.maxSize != lastMax || after.interval != lastInt) {
+							diffs = append(diffs, fmt.Sprintf("cache follows limit %d / interval %v, the accepted values are %d / %v", after.maxSize, after.interval, lastMax, lastInt))
+						}
+						if !loggerDestroyed && after.level != lastLvl {
+							diffs = append(diffs, fmt.Sprintf("logger filters at %v, the accepted level is %v", after.level, lastLvl))
+						}
+						if after.file != before.file {
+							diffs = append(diffs, "config file rewritten")
+						}
+					} else {
+						if !cacheDestroyed && (after.maxSize != before.maxSize || after.interval != before.interval || after.memCap != before.memCap) {
+							diffs = append(diffs, fmt.Sprintf("cache follows new values (limit %d->%d, interval %v->%v)", before.maxSize, after.maxSize, before.interval, after.interval))
+						}
+						if !loggerDestroyed && after.level != before.level {
+							diffs = append(diffs, fmt.Sprintf("log level %v->%v", before.level, after.level))
+						}
 					}
 					if len(diffs) > 0 {
 						cause := "invalid-document"
